@@ -3,7 +3,7 @@ import TaskModel.Sched.Model
 constructor per accepted (event, phase) combination, with the side conditions as clean
 hypotheses.  `stepLocal_iff` proves the two coincide, so case analyses on local steps can
 be done with `cases` instead of unfolding the function each time. -/
-namespace TaskModel.Sched
+namespace TaskModel.Sched.S2
 
 /-- the error a failing dependency group gives the task: an exit status is wrapped for a direct call -/
 def depErr (indirect : Bool) (r : Res) : Res :=
@@ -226,4 +226,4 @@ theorem stepLocal_iff (F : Flags) (o : Obs) (x : Act) (ev : Ev) (y : Act) (eff :
     stepLocal F o x ev = some (y, eff) ↔ LStep F o x ev y eff :=
   ⟨LStep_of_stepLocal F o x ev y eff, stepLocal_of_LStep F o x ev y eff⟩
 
-end TaskModel.Sched
+end TaskModel.Sched.S2
